@@ -137,7 +137,9 @@ def run_scenario(pop, kind, ev, mask):
     m = make_spec(pop, kind, mask)
     if m is None:
         return None, None
-    built = build(m)
+    # every other population runs with falsy providers (empty collection-like listeners, a
+    # model whose __bool__ is False): nothing observable may depend on their truth value
+    built = build(m, falsy=(sum(pop) % 2 == 1))
     eng = "async" if mask.startswith("async") else "sync"
     cfg = Cfg(eng, mask != "sync-nonrtc", False, "facade" if eng == "async" else "direct")
     p = Pair(built, cfg, deep=True)
